@@ -284,7 +284,7 @@ class PG:
                 out += self.dblock(depth - 1, ind + "    ", True, in_finally, in_handler, guarded, noret)
             elif q < 0.80 and in_loop and not in_finally:
                 out.append("%sif a == %d: %s" % (ind, r.randint(0, 2), r.choice(["break", "continue"])))
-            elif q < 0.86 and not in_finally and not noret:
+            elif q < 0.86 and not in_finally:
                 out.append("%sif a == %d: return (%d, n)" % (ind, r.randint(0, 2), self.pk))
                 if guarded:
                     self._f19_hit = True
@@ -314,8 +314,7 @@ class PG:
         if has_finally:
             out.append(ind + "finally:")
             out.append("%s    %s" % (ind, self.x()))
-            # quarantine F26: no bare 'raise' directly in a finally clause
-            out += self.dblock(depth, ind + "    ", in_loop, True, False)
+            out += self.dblock(depth, ind + "    ", in_loop, True, in_handler)
         return out
 
     def gen_driver(self, idx):
